@@ -72,6 +72,9 @@ fn main() {
     }
     let start = std::time::Instant::now();
     let mut rep = Report::new();
+    // fault-enumeration switches (any suite that enumerates injection points honours them)
+    cb::clone_hook(cfg.flag("clonefault"));
+    fault::set_only_kind(cfg.get("only_kind"));
     match cfg.suite.as_str() {
         "key-random" => key_suites::suite_key_random(&cfg, &mut rep),
         "key-closure" => key_suites::suite_key_closure(&cfg, &mut rep),
@@ -80,6 +83,7 @@ fn main() {
         "seg-pairs" => seg_suites::suite_seg_pairs(&cfg, &mut rep),
         "seg-random" => seg_suites::suite_seg_random(&cfg, &mut rep),
         "seg-domains" => seg_suites::suite_seg_domains(&cfg, &mut rep),
+        "seg-bulk" => seg_suites::suite_seg_bulk(&cfg, &mut rep),
         "fault" => fault::suite_fault(&cfg, &mut rep),
         "clear-twin" => misc_suites::suite_clear_twin(&cfg, &mut rep),
         "export-size" => misc_suites::suite_export_size(&cfg, &mut rep),
